@@ -38,6 +38,16 @@ const (
 	KCont
 	KFn   // Params, Rest ("" = none), Kids = body
 	KDefn // Name, Params, Rest, Kids = body
+	// A record with the fields k0 k1 ..; Kids = field values.  Real source (hash k0: e0 k1: e1 ..).  The
+	// reference evaluator has no hashes: it reads (call (var array) e0 e1 ..) and field i is index i.  Records
+	// are only READ through KDotCall (never aget/aset/append/==/map on them), and a record that ends up in
+	// a result is rendered like the array of its values (run.go:RenderValue), so the two readings agree.
+	KRec
+	// A call through a dotted path: Name = head variable, I = field index, Kids = arguments.  Real source
+	// (NAME.k<I> args ..): the head is looked up by functions.go:dotGetSetHelper -> LexicalLookupSymbol, the
+	// field is fetched, a function is called, anything else is returned when there are no arguments.  The
+	// model reads (call (call (var aget) (var NAME) (int I)) args ..) (same order: callee, then arguments).
+	KDotCall
 )
 
 // Datum is quoted data: an int, a symbol or a list.
@@ -96,6 +106,19 @@ func Call(f *Node, args ...*Node) *Node {
 	return &Node{K: KCall, Kids: append([]*Node{f}, args...)}
 }
 func CallN(name string, args ...*Node) *Node { return Call(Var(name), args...) }
+
+// Rec is the record (hash k0: fields[0] k1: fields[1] ..), see KRec.
+func Rec(fields ...*Node) *Node { return &Node{K: KRec, Kids: fields} }
+
+// DotCall is (head.k<field> args ..), see KDotCall.
+func DotCall(head string, field int, args ...*Node) *Node {
+	return &Node{K: KDotCall, Name: head, I: int64(field), Kids: args}
+}
+
+// HasRecords: the program uses the record encoding (KRec / KDotCall).
+func (p *Program) HasRecords() bool {
+	return p.Has(func(n *Node) bool { return n.K == KRec || n.K == KDotCall })
+}
 
 // Cond takes c1 b1 c2 b2 .. default.
 func Cond(kids ...*Node) *Node { return &Node{K: KCond, Kids: kids} }
@@ -262,6 +285,15 @@ func (n *Node) prefix(sb *strings.Builder) {
 		sb.WriteString(")")
 	case KCall:
 		sb.WriteString("(call")
+		kids(0)
+		sb.WriteString(")")
+	case KRec:
+		// a CALL, as in the real source: the field values are arguments (separate compile units, in order)
+		sb.WriteString("(call (var array)")
+		kids(0)
+		sb.WriteString(")")
+	case KDotCall:
+		fmt.Fprintf(sb, "(call (call (var aget) (var %s) (int %d))", n.Name, n.I)
 		kids(0)
 		sb.WriteString(")")
 	case KBegin, KAnd, KOr, KScope:
@@ -497,6 +529,19 @@ func (n *Node) render(r *renderer) {
 			f.render(r)
 		}
 		all(n.Kids[1:])
+		r.t(")")
+	case KRec:
+		r.t("(")
+		r.t("hash")
+		for i, k := range n.Kids {
+			r.t(fmt.Sprintf("k%d:", i))
+			k.render(r)
+		}
+		r.t(")")
+	case KDotCall:
+		r.t("(")
+		r.t(fmt.Sprintf("%s.k%d", n.Name, n.I))
+		all(n.Kids)
 		r.t(")")
 	case KBegin, KAnd, KOr, KScope:
 		r.t("(")
